@@ -157,7 +157,7 @@ func GenIntVal() *rapid.Generator[*Val] {
 	})
 }
 
-var floatPool = []string{"1.5", "0.5", "-2.25", "10.1", "1.2", "0.001", "3.14159", "-0.75", "5.0", "100.125", "1e3", "2.5e-3", "12345678.875"}
+var floatPool = []string{"0.123456789", "52.52000659", "1.7976931348623157e308", "1234.56789", "-0.000001234567891", "1.5", "0.5", "-2.25", "10.1", "1.2", "0.001", "3.14159", "-0.75", "5.0", "100.125", "1e3", "2.5e-3", "12345678.875"}
 
 // GenFloatVal draws a decimal written so that Go prints back the same number.
 func GenFloatVal() *rapid.Generator[*Val] {
